@@ -100,6 +100,18 @@ func UserDefined(exprs []*lisp.LVal) map[string]bool {
 			if ArgCount(sexpr) >= 1 {
 				CollectFormals(sexpr.Cells[1], defs)
 			}
+		case "set":
+			// (set 'name value) rebinds name globally: a builtin of that
+			// name is shadowed like by a defun.
+			if ArgCount(sexpr) >= 1 {
+				target := sexpr.Cells[1]
+				if target.Type == lisp.LQuote && len(target.Cells) == 1 {
+					target = target.Cells[0]
+				}
+				if target.Type == lisp.LSymbol && target.IsQuoted() {
+					defs[target.Str] = true
+				}
+			}
 		}
 	})
 	return defs
